@@ -32,6 +32,11 @@ class Holder(object):
             raise KeyError("bound method fails")
 
 
+class FalsyError(ValueError):
+    def __bool__(self):
+        return False
+
+
 def make_callback(kind, fail, sink):
     def plain(result, exception, extra):
         sink.append((result, exception, extra))
@@ -61,8 +66,10 @@ def h_contained(shape, value, extra):
     future = FutureResult()
     sink = []
     callback = make_callback(shape["kind"], shape["fail"], sink)
-    failing_task = shape["task"] == "raise"
+    failing_task = shape["task"] in ("raise", "raise_falsy")
     err = ValueError("task fails")
+    if shape["task"] == "raise_falsy":
+        err = FalsyError()  # an exception object that is falsy (empty aggregate, __bool__ False)
 
     def task():
         if failing_task:
